@@ -5,8 +5,6 @@ From Coq Require Import ZArith Lia.
 From Measured Require Import Model.FMap Model.Units Model.Intern.
 Local Open Scope Z_scope.
 
-Global Instance unit3_eq_dec : EqDecision unit3.
-Proof. solve_decision. Defined.
 
 (* what the implementation reported for one operation *)
 Inductive outcome :=
